@@ -6,6 +6,7 @@ use crate::{
     next::NextChunk,
     AtomicCounter, ConcurrentIter, Next,
 };
+use super::taken::Taken;
 use std::{
     cell::UnsafeCell,
     cmp::Ordering,
@@ -68,8 +69,7 @@ impl<T: Send + Sync> ConIterOfVec<T> {
         let len = end_idx - begin_idx;
 
         let ptr = vec.as_mut_ptr().add(begin_idx);
-        let vec = Vec::from_raw_parts(ptr, len, 0);
-        vec.into_iter()
+        Taken::new(ptr, len)
     }
 
     unsafe fn split_off_right(&self, left_len: usize) -> Vec<T> {
